@@ -9,6 +9,7 @@ from ..model import grid as GM
 from .. import kpx
 
 PID = 'C06'
+_shared_options = {}
 SHARDS = {'quick': 1, 'thorough': 16}
 
 
@@ -99,6 +100,29 @@ def one(ctx: Ctx, cs, pname=None, **over):
                               f'{ge[j] if j < len(ge) else "<end>"!r}', c2)
             elif nontriv_doc and 0 < len(keep) < n:
                 ctx.nontriv(cs, tuple(ids) if ids is not None else None, tuple(tys) if tys is not None else None)
+    # the same selections through ExportOptions objects that are REUSED for every document of the run (kp.export)
+    import warnings
+    for tys in type_sets:
+        if tys is None:
+            continue
+        key = tuple(tys)
+        if key not in _shared_options:
+            _shared_options[key] = kp.ExportOptions(spine_types=list(tys))
+        keep = {i for i in range(n) if doc.headers[i] in tys}
+        ctx.ev()
+        ctx.mon('reused_options_exports')
+        try:
+            with warnings.catch_warnings():
+                warnings.simplefilter('ignore')
+                out = kp.export(d, _shared_options[key])
+        except Exception as ex:
+            ctx.violation('projection-raises', f'export with a reused ExportOptions(spine_types={tys}) raised {type(ex).__name__}: {ex}',
+                          dict(case, spine_types=tys, reused_options=True))
+            continue
+        exp = project_text(fulls['kern'][1], keep)
+        if out != exp:
+            ctx.violation('projection-mismatch', f'export(doc, options) with an ExportOptions(spine_types={tys}) object reused from earlier '
+                          f'documents differs from the projection of the full export', dict(case, spine_types=tys, reused_options=True))
     # spine-type query = header line of the projection
     for tys in type_sets:
         ctx.ev()
